@@ -708,6 +708,10 @@ func addFilter(rule *ruleData, lhs, comparator, rhs string) error {
 		fallthrough
 	case subjectUserField, subjectRoleField, subjectTypeField,
 		subjectSensitivityField, subjectClearanceField, keyField, exeField:
+		// String fields only support = and != (as in auditctl and the kernel).
+		if op != equalOperator && op != notEqualOperator {
+			return fmt.Errorf("%v only supports the = and != operators", lhs)
+		}
 		// Add string to strings.
 		if field == keyField && len(rhs) > maxKeyLength {
 			return fmt.Errorf("%v cannot be longer than %v", lhs, maxKeyLength)
